@@ -6,6 +6,8 @@ import (
 	"net"
 	"net/http"
 	"time"
+
+	admin "google.golang.org/api/admin/directory/v1"
 )
 
 // VerifRelaxClientTimeouts replaces the identity-provider client's short wall-clock timeouts (5 s total,
@@ -20,4 +22,17 @@ func VerifRelaxClientTimeouts() {
 			TLSHandshakeTimeout: 2 * time.Minute,
 		},
 	}
+}
+
+// VerifUseRealAdminService gives the Google provider the real GoogleAdminService, built the way
+// NewGoogleProvider builds it (same breaker), but over the given HTTP client instead of one that
+// needs service-account credentials, and with the breaker's wall clock frozen.
+func VerifUseRealAdminService(p *GoogleProvider, client *http.Client) error {
+	svc, err := admin.New(client)
+	if err != nil {
+		return err
+	}
+	p.cb.VerifFreezeClock(time.Date(2030, 1, 1, 0, 0, 0, 0, time.UTC))
+	p.AdminService = &GoogleAdminService{adminService: svc, cb: p.cb}
+	return nil
 }
